@@ -92,3 +92,15 @@ def hashed(run, P):
 def writecap(run, P):
     from rules import r_writecap
     r_writecap.run(run, P)
+def realloc_commit(run, P):
+    from rules import r_realloc
+    r_realloc.run(run, P)
+def pairargs(run, P):
+    from rules import r_pairargs
+    r_pairargs.run(run, P)
+def sizefill(run, P):
+    from rules import r_sizefill
+    r_sizefill.run(run, P)
+def consume(run, P):
+    from rules import r_consume
+    r_consume.run(run, P)
